@@ -20,14 +20,50 @@ LEVEL_TEXT = ("The site model takes each directory's listing order as an explici
               "comparing sha256 of every output file.")
 LEVEL_NOTE = ("Partial: the real iterdir, functools.lru_cache and random are outside the model; purity rests on the repeat-generation oracle (search). Trusted: "
               "Lean kernel; monkey-patching of Path.iterdir happens in the harness process only.")
-LEAN_MODULES = ["RecipeGrid.Props.C17"]
+LEAN_MODULES = ["RecipeGrid.Props.C17", "RecipeGrid.Props.C17b"]
 SOURCES = ["recipe_grid/static_site/recipe_directory.py", "recipe_grid/static_site/website.py", "recipe_grid/markdown.py"]
 RULE = ("source trees of C14 including sibling recipes and sub-directories with equal titles; each generated three times: listing order as is / reversed / "
         "shuffled, with different RNG seeds, after unrelated compilations, and once more after editing one recipe; non-trivial = some directory has two "
         "or more entries; distinct = distinct trees")
 
 
+def cache_correspondence(run):
+    """C17b: the real `_cached_compile_markdown` (functools.lru_cache around compile_markdown, keyed by the document text) observed through
+    cache_info() over sequences of calls with repeats, more distinct texts than its capacity, and texts that do not compile - against the
+    model Lru.call (hit / miss and number of entries after every call)"""
+    from recipe_grid.static_site import recipe_directory as RD
+    rng = run.rng
+    cache = RD._cached_compile_markdown
+    cap = cache.cache_info().maxsize
+    for _ in range(run.budget(2, 12)):
+        nkeys = rng.choice([5, 40, cap + 30, 2 * cap + 5])
+        bad = sorted(rng.sample(range(nkeys), max(1, nkeys // 10)))
+        seq = []
+        for _ in range(rng.randint(50, 3 * cap + 200)):
+            seq.append(rng.choice(seq[-8:]) if seq and rng.random() < 0.35 else rng.randrange(nkeys))
+        cache.cache_clear()
+        real = []
+        for k in seq:
+            before = cache.cache_info()
+            text = ("# T%d for 2\n\n    1 x%d\n" % (k, k)) if k not in bad else ("# B%d for 2\n\n    f(x%d\n" % (k, k))
+            try:
+                r = cache(text)
+                ok = r.title == "T%d" % k
+            except Exception:  # noqa
+                ok = k in bad
+            after = cache.cache_info()
+            real.append((after.hits > before.hits, after.currsize, ok))
+        m = run.ask(["(lru %d %s %s)" % (cap, sexp.lst(str, seq), sexp.lst(str, bad))])[0]
+        run.case(("lru", tuple(seq[:40]), nkeys), True, kind="lru:%s" % ("evicting" if nkeys > cap else "small"))
+        run.groups["_cached_compile_markdown (hit/miss, size, result) vs Lru.call"] += len(seq)
+        if [(a, b) for a, b, _ in real] != [(bool(x[0]), x[1]) for x in m] or not all(c for _, _, c in real):
+            i = next((i for i, (x, y) in enumerate(zip(real, m)) if (x[0], x[1]) != (bool(y[0]), y[1]) or not x[2]), -1)
+            run.disagree("lru", {"cap": cap, "calls": seq[:i + 1][-20:], "failing": bad}, repr(real[max(0, i - 2):i + 1]), repr(list(m)[max(0, i - 2):i + 1]))
+    cache.cache_clear()
+
+
 def correspondence(run):
+    cache_correspondence(run)
     c14.correspondence(run)
 
 
